@@ -9,6 +9,7 @@ through `Selector::unify`) and `suffixUnwrapPanics`.
 -/
 import RsassModel.Sel.NestLemmas
 import RsassModel.Sel.NestLemmas2
+import RsassModel.Sel.NestLemmas3
 
 namespace Sel.C19
 
@@ -223,5 +224,42 @@ theorem decls_under_resolved_selector (q : NestQuirks) (ctx : Ctx) (out : List B
     Item.eval q ctx out (.rule sels ((d :: ds).map Item.decl)) = (ctx.nest q sels, d :: ds) :: out := by
   simp only [Item.eval]
   exact Item.evalBody_decls q _ _ out d ds
+
+/-- **The nested selector list is `&`-free** (`CssSelectorSet::nest`, every flag setting): with
+`&`-free outer list and backref list, every selector of the result is `&`-free — rows with `&`
+go through `resolve_ref`, rows without through `Selector::nest`, the round robin only
+rearranges.  This is the `CssSelectorSet` invariant the next nesting level relies on. -/
+theorem nest_set_amp_free (q : NestQuirks) (self other backref : SelSet)
+    (hs : ∀ s ∈ self, s.hasBackref = false) (hb : ∀ s ∈ backref, s.hasBackref = false) :
+    SelSet.hasBackref (SelSet.nest q self other backref) = false := by
+  unfold SelSet.hasBackref SelSet.nest
+  rw [Selector.hasBackrefList_false_iff]
+  intro x hx
+  obtain ⟨row, hrow, hxr⟩ := mem_roundRobin _ x hx
+  obtain ⟨o, _, rfl⟩ := List.mem_map.mp hrow
+  exact nestRow_hasBackref q self backref hs hb o x hxr
+
+/-- `&-x` against an outer selector whose last compound ends in a placeholder (`%btn { &-x }`) -/
+theorem amp_suffix_placeholder (q : NestQuirks) (hq : q.ampViaUnify = false) (cm : Bool) (s : Selector)
+    (sfx : List Char) (e : Option (List Char)) (p : List (List Char))
+    (hs : s.compound = .mk false e p [] none [] []) (hne : p ≠ []) :
+    (resolveOne q s (.mk false (some sfx) [] [] none [] [])).map (Selector.print cm)
+      = [Selector.print cm s ++ sfx] := by
+  obtain ⟨ap, hap, hp⟩ := Compound.print_append_suffix_placeholder cm e p sfx hne (!q.appendIdLastWins)
+  simp only [resolveOne, hs, hap, hq, Bool.false_eq_true, if_false, List.map_cons, List.map_nil]
+  rw [Selector.print_setCompound_of cm s ap sfx (by rw [hs]; exact hp)]
+
+/-- `&-x` against an outer selector whose last simple selector is a pseudo-class or
+pseudo-element without argument (`a.b[c]:hover { &-x }` → `a.b[c]:hover-x`), whatever precedes it
+in the compound; specification flags and the code today, both styles. -/
+theorem amp_suffix_pseudo (q : NestQuirks) (hq : q.ampViaUnify = false) (cm : Bool) (s : Selector)
+    (sfx n : List Char) (el : Bool) (e : Option (List Char)) (p c : List (List Char)) (i : Option (List Char))
+    (ats : List Attr) (pre : List Pseudo)
+    (hs : s.compound = .mk false e p c i ats (pre ++ [.mk n .none el])) :
+    (resolveOne q s (.mk false (some sfx) [] [] none [] [])).map (Selector.print cm)
+      = [Selector.print cm s ++ sfx] := by
+  obtain ⟨ap, hap, hp⟩ := Compound.print_append_suffix_pseudo cm e p c i ats pre n sfx el (!q.appendIdLastWins)
+  simp only [resolveOne, hs, hap, hq, Bool.false_eq_true, if_false, List.map_cons, List.map_nil]
+  rw [Selector.print_setCompound_of cm s ap sfx (by rw [hs]; exact hp)]
 
 end Sel.C19
